@@ -138,10 +138,25 @@ func TestVerifShutdownFullQueue(t *testing.T) {
 	var pubMu sync.Mutex
 	published := 0
 	pubStop := make(chan struct{})
+	// VERIF_MQ_FULL=1: the collector as it runs with `producer-enabled: false` (or a producer that has stopped taking
+	// messages) for longer than 1000 messages: the producer queue is full and stays full - nothing reads it
+	// The workers are NOT stalled in this mode: they keep up with the 1000 datagrams and more (their messages are dropped at
+	// the full queue), and the shutdown that follows finds an ordinary, busy collector.
+	rd := mq
+	mqFull := os.Getenv("VERIF_MQ_FULL") == "1"
+	var gateOnce sync.Once
+	openGate := func() { gateOnce.Do(func() { close(gate) }) }
+	if mqFull {
+		for len(mq) < cap(mq) {
+			mq <- []byte("{}")
+		}
+		rd = nil
+		openGate()
+	}
 	go func() {
 		for {
 			select {
-			case m := <-mq:
+			case m := <-rd:
 				pubMu.Lock()
 				published++
 				same[string(sdColTime.ReplaceAll(m, []byte(`"ColTime":0`)))]++
@@ -224,11 +239,14 @@ func TestVerifShutdownFullQueue(t *testing.T) {
 	c.Close()
 	res.UDPCount = udpCount()
 	res.QueueFull = qlen() == 1000 && res.UDPCount >= 1003
+	if mqFull {
+		res.QueueFull = res.UDPCount >= 1003 // (the datagram queue need not be full here: the workers run)
+	}
 	if backlog {
 		res.QueueFull = qlen() == 1000
 		res.Sent = sent
 		time.Sleep(1200 * time.Millisecond) // the receive loop sits in its wait for room at least once
-		close(gate)                         // the workers catch up
+		openGate()                          // the workers catch up
 		stable, last := 0, uint64(0)
 		t1 := time.Now()
 		for stable < 10 && time.Since(t1) < 30*time.Second {
@@ -270,7 +288,7 @@ func TestVerifShutdownFullQueue(t *testing.T) {
 	time.Sleep(time.Duration(hold) * time.Millisecond) // well past any grace period, the loop still blocked
 	t0 := time.Now()
 	if !backlog {
-		close(gate) // the workers come back and drain the queue
+		openGate() // the workers come back and drain the queue
 	}
 	select {
 	case <-sdDone:
